@@ -381,3 +381,6 @@ VARIANTS += [
 VARIANTS += [
     V("C09", "only the single underscore is left unconverted again", HELP, "    if not name.strip(\"_\") or naming_convention == NamingConvention.PYTHON:", "    if name == \"_\" or naming_convention == NamingConvention.PYTHON:", "C09.CONVERT-SHAPE"),
 ]
+VARIANTS += [
+    V("C04", "imports inside functions recorded as re-exports again", VIS, "            if not import_.is_top_level:\n                continue\n\n", "", "C04.REEXPORT-SOURCE"),
+]
